@@ -157,6 +157,7 @@ class Universe:
         self.name, self.dofs, self.qn_size, self.qn_of, self.letters = name, list(dofs), qn_size, qn_of, list(letters)
         self.D = 2 ** len(self.dofs)
         self._w = {}
+        self._d = {}
 
     def word(self, symbol, dofs):
         """exact integer matrix of the word (factor 1)"""
@@ -177,8 +178,14 @@ class Universe:
         return r
 
     def den_op(self, op):
-        w, _ = self.word(op.symbol, op.dofs)
-        return EM.from_int(w).smul(op.factor)
+        key = (op.symbol, tuple(op.dofs), complex(op.factor))      # exact float values; EM objects are never modified in place
+        d = self._d.get(key)
+        if d is None:
+            w, _ = self.word(op.symbol, op.dofs)
+            d = EM.from_int(w).smul(op.factor)
+            if len(self._d) < 200000:
+                self._d[key] = d
+        return d
 
     def den(self, x):
         """x: an Op-like (has .symbol) or an iterable of them"""
